@@ -509,6 +509,8 @@ def rw_rename(prog, opts, rng):
     prog = copy.deepcopy(prog)
     ids = sorted(prog['names'], key=int)
     used = set(v['n'].replace('_', '-') for v in prog['names'].values())
+    if not ids:
+        return prog, opts, None
     for i in rng.sample(ids, max(1, len(ids) * rng.randint(1, 4) // 4)):
         prog['names'][i]['n'] = fresh_name(rng, used)
     return prog, opts, 'any'
@@ -584,9 +586,27 @@ def rw_partial(prog, opts, rng):
         return prog, opts, None
     i = rng.randrange(len(body))
     j = min(len(body), i + rng.randint(1, 3))
-    kinds = sorted(set(s[0] for s in body[i:j]))
+    # is any global variable (assigned at the top level, in top-level control flow, or with !global) the target of a second
+    # assignment anywhere (nested ones without !global included: they shadow a true global, but update a non-global)?
+    count, globs = {}, set()
+    for b, ctx in walk_bodies(prog):
+        for s in b:
+            ids = []
+            if s[0] == 'var':
+                ids = [s[1]]
+                if ctx == 'top' or 'global' in s[3]:
+                    globs.add(s[1])
+            elif s[0] == 'each':
+                ids = s[1]
+            elif s[0] == 'for':
+                ids = [s[1]]
+            if ctx == 'top':
+                globs.update(ids)
+            for v in ids:
+                count[v] = count.get(v, 0) + 1
+    site = 'a-global-is-assigned-more-than-once' if any(count[v] > 1 for v in globs) else 'globals-assigned-once'
     body[i:j] = [['import', 0, body[i:j]]]
-    return prog, opts, '+'.join(kinds)
+    return prog, opts, site
 
 
 REWRITES = {'ws': rw_ws, 'rename': rw_rename, 'swap': rw_swap, 'extract': rw_extract, 'debug': rw_debug, 'partial': rw_partial}
@@ -607,8 +627,9 @@ def apply_steps(prog, steps):
 
 def scan(src):
     """-> (boundaries, newlines): boundaries = [(index just after a `;` `{` `}` that ends a statement or opens/closes a block,
-    char)], newlines = indexes of \\n characters in code (not in strings, comments, url()).  Returns None when the text is not
-    understood (unbalanced, custom properties)."""
+    char)], newlines (see below; not in strings, comments, parentheses, interpolation).  Returns None when the text is not
+    understood (unbalanced, `//` inside parentheses).  newlines = [(index of a \\n at block level, index where its statement
+    starts)]."""
     n = len(src)
     i = 0
     stack = []                   # 'block' | 'interp' | 'paren' | ('str', quote)
@@ -644,6 +665,8 @@ def scan(src):
             i = j + 2
             continue
         if c == '/' and src[i + 1:i + 2] == '/':
+            if top == 'paren':
+                return None                              # e.g. `@supports (a //` - raw text, not a comment
             j = src.find('\n', i)
             if j < 0:
                 break
@@ -703,8 +726,8 @@ def scan(src):
             continue
         if c == ';' and top == 'block':
             bounds.append((i + 1, c))
-        elif c == '\n':
-            nls.append(i)
+        elif c == '\n' and top == 'block':
+            nls.append((i, bounds[-1][0] if bounds else 0))
         i += 1
     if stack:
         return None
@@ -724,15 +747,26 @@ def usable_boundaries(src, bounds, for_debug):
         if '/*' in line_rest or '*/' in src[bol:pos]:
             continue                        # a loud comment on this line: its column / trailing position would change
         nxt = _NEXT.match(src, pos).end()
-        if src.startswith('/*', nxt):
-            continue
-        if src.startswith('@else', nxt):
-            if for_debug:
-                continue
+        if src.startswith('/*', nxt) or src.startswith(';', nxt):
+            continue                        # (an empty statement `;;` is its own matter: rsass refuses it at the top level)
+        if for_debug and src.startswith('@', nxt) and src[nxt + 1:nxt + 2] in ('e', 'E', '\\'):
+            continue                        # possibly @else (also spelled with an escape): no statement may come before it
         if for_debug and pos < last_use:
             continue
         out.append(pos)
     return out
+
+
+_SASS_AT = re.compile(r'@(?:if|else|each|for|while|mixin|include|function|return|debug|warn|error|extend|content|at-root)\b')
+
+
+def widenable(src, head):
+    """Whitespace holding a newline may be widened inside statements that are rules, declarations, variable declarations or
+    Sass control statements - not inside @media / @supports / @import / unknown at-rule preludes (kept as written)."""
+    nxt = _NEXT.match(src, head).end()
+    if src.startswith('@', nxt):
+        return bool(_SASS_AT.match(src, nxt))
+    return True
 
 
 def corpus_apply(src, steps):
@@ -753,14 +787,14 @@ def corpus_apply(src, steps):
             for pos in rng.sample(us, min(len(us), rng.randint(1, 6))):
                 nxt = _NEXT.match(src, pos).end()
                 k = rng.random()
-                if src.startswith('@else', nxt) or k < 0.6:
+                if (src.startswith('@', nxt) and src[nxt + 1:nxt + 2] in ('e', 'E', '\\')) or k < 0.6:
                     ins[pos] = rng.choice([' ', '\n', '\n\n  ', '\t', ' \n', '   '])
                 else:
                     ins[pos] = rng.choice([' // c35\n', '\n// a { b: c; }\n', ' //\n', ' // "q\n'])
                 chars.add('after-' + {';': 'semicolon', '{': 'open-brace', '}': 'close-brace'}[src[pos - 1]])
             site = '+'.join(sorted(chars))
         elif kind == 'widen':
-            us = [p for p in nls if src[p - 1:p] != '\\']
+            us = [p for p, head in nls if src[p - 1:p] != '\\' and widenable(src, head)]
             if not us:
                 return None, sites
             ins = {}
@@ -841,33 +875,32 @@ def files_of(case, steps):
 
 
 def judge_case(ctx, case, base, res, files, sites):
-    """One (original, rewritten) pair that disagrees is reduced to single steps; every failing single step is reported under
-    its own signature, otherwise the whole sequence."""
-    cls = compare(ctx, case, base, res, case['steps'], sites)
-    if cls is None:
+    """When original and rewritten disagree, the steps are replayed one after the other: since every step preserves meaning,
+    the first step after which the result changes is the one that broke it, relative to the source before that step."""
+    if compare(ctx, case, base, res, case['steps'], sites) is None:
         return
-    found = False
-    if len(case['steps']) > 1:
-        for k, st in enumerate(case['steps']):
-            f1, s1 = files_of(case, [st])
-            if f1 is None:
-                continue
-            r1 = ctx.compile(**job_of(f1))
-            c1 = compare(ctx, case, base, r1, [st], s1)
-            if c1 is not None:
-                found = True
-                report(ctx, dict(case, steps=[st]), base, r1, f1, [st], s1, c1)
-    if not found:
-        report(ctx, case, base, res, files, case['steps'], sites, cls)
+    prev_r, prev_files = base, None
+    for k in range(1, len(case['steps']) + 1):
+        fk, sk = files_of(case, case['steps'][:k])
+        if fk is None:
+            return
+        rk = res if k == len(case['steps']) else ctx.compile(**job_of(fk))
+        cls = compare(ctx, case, prev_r, rk, None, None)
+        if cls is not None:
+            report(ctx, dict(case, steps=case['steps'][:k]), prev_r, rk, prev_files, fk, case['steps'][k - 1], sk[-1], cls)
+            return
+        if outcome(rk)[0] not in ('ok', 'err'):
+            return
+        prev_r, prev_files = rk, fk
 
 
-def report(ctx, case, base, res, files, steps, sites, cls):
-    kinds = '+'.join(sorted(set(k for k, _ in steps)))
-    site = ','.join(sorted(set(s for s in sites if s))) if len(steps) == 1 else ''
-    sig = 'source=%s|rewrite=%s%s|%s' % (case['source'], kinds, ('|at=' + site) if site else '', cls)
-    orig = render(case['prog'], {}) if case['source'] == 'gen' else {'main.scss': case['src']}
-    ctx.violation(sig, case, {'original': orig, 'rewritten': files, 'original_result': (base.get('out') or base.get('err') or '')[:600],
-                              'rewritten_result': (res.get('out') or res.get('err') or res.get('panic_msg') or '')[:600], 'sites': sites})
+def report(ctx, case, before, after, files_before, files_after, step, site, cls):
+    sig = 'source=%s|rewrite=%s%s|%s' % (case['source'], step[0], ('|at=' + site) if site and site != 'any' else '', cls)
+    if files_before is None:
+        files_before = render(case['prog'], {}) if case['source'] == 'gen' else {'main.scss': case['src']}
+    text = lambda r: (r.get('out') or r.get('err') or r.get('panic_msg') or '')[:700]
+    ctx.violation(sig, case, {'note': 'the last step of case.steps changed the result; shown: source before and after that step',
+                              'before': files_before, 'after': files_after, 'result_before': text(before), 'result_after': text(after)})
 
 
 def run_batch(ctx, cases):
